@@ -3,6 +3,8 @@ package engb
 import (
 	"fmt"
 	"math/rand/v2"
+	"os"
+	"path/filepath"
 	"strings"
 
 	"verifharness/vkit"
@@ -83,7 +85,128 @@ func checkC07(c *vkit.Ctx) {
 	lab.Wipe()
 }
 
+// c07Spellings: one snapshot directory addressed under two spellings in one process - through
+// a symbolic link in an ordinary build, as a relative and as an absolute path in a -trimpath
+// build (where a relative Dir stays relative to the working directory). Every test runs and
+// every call passes in the judged process, so Clean has nothing to list, nothing to remove,
+// and whatever it rewrites keeps every entry.
+func c07Spellings(c *vkit.Ctx, lab *Lab, r *rand.Rand, i int) {
+	lab.Wipe()
+	prog, trimmed := lab.prog(i)
+	var sp [2]string
+	dirReal := lab.AbsDir
+	if trimmed {
+		dirReal = filepath.Join(lab.Src, "snaps_rel")
+		sp = [2]string{"snaps_rel", dirReal}
+	} else {
+		link := lab.AbsDir + "-link"
+		os.MkdirAll(lab.AbsDir, 0o755)
+		os.Remove(link)
+		if err := os.Symlink(lab.AbsDir, link); err != nil {
+			c.Count("spelling_cases_skipped_no_symlink", 1)
+			return
+		}
+		defer os.Remove(link)
+		sp = [2]string{lab.AbsDir, link}
+	}
+	scn := &Scenario{Nodes: map[string]*Node{}, Roots: lab.Roots, CleanOpts: true}
+	tests := []string{"TestA", "TestB", "TestC"}
+	type addressed struct{ file, id string }
+	var multi []addressed
+	var files []string
+	for ti, t := range tests {
+		n := &Node{}
+		nc := 1 + r.IntN(3)
+		ord := map[int]int{}
+		for k := 0; k < nc; k++ {
+			via := ti % 2 // TestA: first spelling, TestB: second, TestC: both
+			if ti == 2 {
+				via = k % 2
+			}
+			api := []string{"snap", "snap", "json", "yaml", "ssnap", "sjson"}[r.IntN(6)]
+			cl := Call{API: api, Dir: sp[via], File: "shared"}
+			switch api {
+			case "json", "sjson":
+				cl.Val = fmt.Sprintf(`{"who":%q}`, t)
+			case "yaml":
+				cl.Val = fmt.Sprintf("who: %s\n", t)
+			default:
+				cl.Val = "value of " + t
+			}
+			if cl.Standalone() {
+				cl.File = fmt.Sprintf("sa_%s_%d_via%d", t, k, via)
+				ext := ".snap"
+				if api == "sjson" {
+					ext = ".snap.json"
+				}
+				files = append(files, filepath.Join(dirReal, cl.File+"_1"+ext))
+			} else {
+				// ordinals are kept per spelling: a test that uses both addresses slot 1, 2 ... under
+				// each (with the same value, so the later call finds what the earlier one stored)
+				ord[via]++
+				multi = append(multi, addressed{filepath.Join(dirReal, "shared.snap"), vkit.SlotID(t, ord[via])})
+			}
+			n.Calls = append(n.Calls, cl)
+		}
+		scn.Nodes[t] = n
+	}
+	in := map[string]any{"part": "one directory under two spellings", "spellings": sp, "trimpath_build": trimmed, "nodes": scn.Nodes}
+	rec := prog.RunChild(RunOpt{PkgDir: lab.PkgDir, Scenario: scn})
+	if !rec.Complete {
+		c.Inconclusive("recording run (two spellings) did not complete: " + fmt.Sprint(rec.Err) + " " + rec.Stderr)
+		return
+	}
+	upd := []string{"", "", "clean", "true"}[r.IntN(4)]
+	scn.CleanSort = r.IntN(2) == 0
+	res := prog.RunChild(RunOpt{PkgDir: lab.PkgDir, Scenario: scn, Update: upd})
+	if !res.Complete {
+		c.Violate("clean-did-not-complete", "", fmt.Sprintf("child died: %v %s", res.Err, res.Stderr), in)
+		return
+	}
+	for _, e := range res.Events {
+		if e.Ev == "sig" && (e.Kind == "Error" || (e.Kind == "Log" && upd != "true")) {
+			c.Count("spelling_cases_premise_failed", 1) // every call of the judged run is meant to pass
+			return
+		}
+	}
+	sum := res.Summary
+	if sum == nil {
+		sum = &Summary{}
+	}
+	if len(sum.Tests) > 0 || len(sum.Files) > 0 {
+		c.Violate("addressed-entry-listed-obsolete", "", fmt.Sprintf("UPDATE_SNAPS=%q sort=%v: every test ran and every call passed, Clean lists %v %v", upd, scn.CleanSort, sum.Tests, sum.Files), in)
+		return
+	}
+	ents, torn := vkit.ReadSnapFile(filepath.Join(dirReal, "shared.snap"))
+	if len(torn) > 0 && len(multi) > 0 {
+		c.Violate("file-torn-after-clean", "", strings.Join(torn, "; "), in)
+		return
+	}
+	for _, m := range multi {
+		if len(vkit.FindEntries(ents, m.id)) != 1 {
+			c.Violate("clean-discarded-addressed-entry", "", fmt.Sprintf("UPDATE_SNAPS=%q sort=%v: [%s] was matched in this process and is gone from shared.snap (%v)", upd, scn.CleanSort, m.id, entryIDs(ents)), in)
+			return
+		}
+	}
+	for _, f := range files {
+		if _, err := os.Stat(f); err != nil {
+			c.Violate("clean-discarded-addressed-entry", "", fmt.Sprintf("UPDATE_SNAPS=%q: standalone file %s was matched in this process and is gone", upd, filepath.Base(f)), in)
+			return
+		}
+	}
+	c.Count("directories_addressed_under_two_spellings", 1)
+	c.Count("entry_checks", len(multi)+len(files))
+	c.Case(vkit.Hash("spellings", fmt.Sprint(in), upd, scn.CleanSort), true)
+	if i%97 == 0 {
+		c.Sample(in)
+	}
+}
+
 func runC07(c *vkit.Ctx, lab *Lab, r *rand.Rand, i int) {
+	if i%10 == 7 {
+		c07Spellings(c, lab, r, i)
+		return
+	}
 	lab.Wipe()
 	lc := lab.Gen(r, LabOpts{RunFilter: true, Counts: true, Stale: true, Shuffle: true, Hostile: true, Fuzz: true, Parallel: true, Bench: true})
 	prog, trimmed := lab.prog(i)
